@@ -39,6 +39,16 @@ func (c *Ctx) Explore(fn *types.Func, level, maxRuns int) *Exploration {
 	return e
 }
 
+// ExploreT: the tier's exploration of a unit root — quick: every arm of every decision (level 1); thorough: every
+// pair of arms (level 2, larger run budget). Rules that scan all variants of a unit use it, so that the thorough tier
+// sees arm combinations the quick tier does not.
+func (c *Ctx) ExploreT(fn *types.Func, maxRuns int) *Exploration {
+	if c.Thorough() {
+		return c.Explore(fn, 2, 60000)
+	}
+	return c.Explore(fn, 1, maxRuns)
+}
+
 // ExploreDeep explores with every generator-package function followed.
 func (c *Ctx) ExploreDeep(fn *types.Func, level, maxRuns int) *Exploration {
 	k := fmt.Sprintf("deep/%s/%d/%d", FuncName(fn), level, maxRuns)
